@@ -562,5 +562,5 @@ Example roundtrip_hypotheses_satisfiable :
 Proof.
   split; [cbn; repeat split; discriminate|]. split; [vm_compute; reflexivity|]. split; [|split; vm_compute; reflexivity].
   apply Up_initial; [reflexivity|]. cbn [ex_state scopes raw ex_items ex_toks app].
-  repeat (apply UpR_cons; [vm_compute; reflexivity|]). apply UpR_nil.
+  repeat (eapply UpR_cons; [vm_compute; reflexivity|]). apply UpR_nil.
 Qed.
